@@ -187,7 +187,9 @@ def rule_early(ck):
     for n, c in ups:
         fs = [(canon(a), t) for a, t in facts_at(fl, n)]
         ck.require(("self.early_departure", True) in fs, "C19.R6", f, c, ok="only when early departure is enabled", bad="early unplug is not guarded by self.early_departure", sink="early:enabled")
-        nonempty = any((c_ := cmp_norm(a, t)) and c_[1] == "<" and canon(c_[0]) == "0" and canon(c_[2]) == "len(self.waiting_queue)" for a, t in facts_at(fl, n)) or ("self.waiting_queue", True) in fs
+        from ..rules import emptiness
+        nonempty = any((c_ := cmp_norm(a, t)) and c_[1] == "<" and canon(c_[0]) == "0" and canon(c_[2]) == "len(self.waiting_queue)" for a, t in facts_at(fl, n)) or ("self.waiting_queue", True) in fs \
+            or emptiness(fl, n, "self.waiting_queue") == "nonempty"
         ck.require(nonempty, "C19.R6", f, c, ok="only while someone is waiting", bad="satisfied EVs are unplugged early although nobody is waiting", sink="early:nonempty")
         b = bind_args(c, unplug, method=True)
         loops = [t for t, lab in cfg.edges_dominating(n) if t.kind == "for" and lab is True]
